@@ -1,13 +1,293 @@
-import U3.Model.Manager
-/-! # C06 (stage 1: table theorems; the run theorems follow) -/
+import U3.Lemmas.ManagerHdrs
+/-!
+# C06 — credentials are never forwarded to a different origin on redirect
+
+Model: `U3.Manager` (shared with C05).  The theorems hold for every world `W` (arbitrary servers /
+redirect graphs, arbitrary `parse_url` / `urljoin` oracles), every amount of fuel and every request;
+they go by induction over the model's redirect loop (`U3.Lemmas.Manager`, `…ManagerHdrs`,
+`…ManagerOrigin`).  Header carriers are plain dicts (any keys, case-duplicates included) or
+`HTTPHeaderDict`s satisfying their representation invariant (`CarriersWF`; C16 proves every operation
+preserves it).
+-/
 namespace U3.Props
-open U3 U3.Manager
+open U3 U3.Headers U3.Retry U3.Manager
 
 /-- the default strip set contains the three credential headers (lower-cased) -/
 theorem C06_default_set :
     ∀ h ∈ [[97, 117, 116, 104, 111, 114, 105, 122, 97, 116, 105, 111, 110], [99, 111, 111, 107, 105, 101],
            [112, 114, 111, 120, 121, 45, 97, 117, 116, 104, 111, 114, 105, 122, 97, 116, 105, 111, 110]],
       h ∈ Gen.Redirect.removeHeadersOnRedirectDefault.map lower := by
+  decide
+
+/-- the default ports `is_same_host` fills in are the ones of `http` and `https` -/
+theorem C06_default_ports : portOf sHttp = some 80 ∧ portOf sHttps = some 443 := by decide
+
+/-! ### small concrete worlds for the examples and witnesses -/
+
+/-- `parse_url` of `scheme://host[:port]path` -/
+def absUrl (scheme host : Str) (port : Option Nat) (netloc path : Str) : PUrl :=
+  ⟨some scheme, some host, port, path, scheme ++ lit "://" ++ netloc ++ path, some netloc,
+    scheme ++ lit "://" ++ netloc ++ path⟩
+/-- `parse_url` of a path-only string -/
+def pathUrl (path : Str) : PUrl := ⟨none, none, none, path, path, none, path⟩
+/-- `parse_url` of `//host/path` -/
+def relUrl (host path : Str) : PUrl := ⟨none, some host, none, path, lit "//" ++ host ++ path, some host, path⟩
+
+def tableWorld (rules : List (Origin × Str × Reply)) (parses : List (Str × PUrl))
+    (joins : List (Str × Str × Str)) : World where
+  serve := fun o _ t => match rules.find? (fun r => r.1 == o && r.2.1 == t) with
+    | some r => r.2.2
+    | none => ⟨200, none⟩
+  parse := fun s => (parses.find? (fun e => e.1 == s)).map (·.2)
+  join := fun b l => (joins.find? (fun e => e.1 == b && e.2.1 == l)).map (·.2.2)
+
+def hostA : Str := lit "a.example"
+def hostB : Str := lit "b.example"
+def urlA : Str := lit "http://a.example/x"
+def urlB : Str := lit "http://b.example/y"
+def sAuth : Str := lit "Authorization"
+def sXSecret : Str := lit "X-Secret"
+
+/-- `http://a.example/x` answers `302 Location: http://b.example/y` -/
+def crossWorld : World :=
+  tableWorld [(⟨sHttp, hostA, 80⟩, lit "/x", ⟨302, some urlB⟩)]
+    [(urlA, absUrl sHttp hostA none hostA (lit "/x")), (urlB, absUrl sHttp hostB none hostB (lit "/y")),
+     (lit "/x", pathUrl (lit "/x")), (lit "/y", pathUrl (lit "/y"))]
+    [(urlA, urlB, urlB)]
+
+def getReq (url : Str) (headers : Option Hdrs) (retries : Arg) : Req :=
+  ⟨false, sGET, url, none, headers, retries, none, none⟩
+
+/-! ### origin equality -/
+
+/-- **`is_same_host` ⇔ same origin** — for every pool identity and every parsed URL (ports other than
+the meaningless `0`): true iff the URL is path-only (starts with `/`), or the scheme (`or "http"`), the
+normalised (lower-cased, bracket-free) host and the effective port (own port, else the default of the
+scheme from `port_by_scheme`) agree with the pool's -/
+theorem C06_same_origin_iff (p : PoolId) (url : Str) (pu : PUrl)
+    (hp : p.port ≠ some 0) (hu : pu.port ≠ some 0) :
+    isSameHost p url pu = true ↔
+      startsWithSlash url = true ∨
+      (schemeOr pu = p.scheme ∧ pu.host.map (fun h => normalizeHost h (schemeOr pu)) = some p.host ∧
+        effPort pu.port (schemeOr pu) = effPort p.port p.scheme) :=
+  isSameHost_iff p url pu hp hu
+
+/-- explicit default port and letter case do not make another origin; another port does -/
+example :
+    isSameHost ⟨sHttp, hostA, none⟩ (lit "HTTP://A.Example:80/x")
+      (absUrl sHttp (lit "A.Example") (some 80) (lit "A.Example:80") (lit "/x")) = true ∧
+    isSameHost ⟨sHttp, hostA, some 80⟩ urlA (absUrl sHttp hostA none hostA (lit "/x")) = true ∧
+    isSameHost ⟨sHttp, hostA, some 80⟩ (lit "http://a.example:8080/x")
+      (absUrl sHttp hostA (some 8080) (lit "a.example:8080") (lit "/x")) = false ∧
+    isSameHost ⟨sHttp, hostA, some 80⟩ (lit "https://a.example/x")
+      (absUrl sHttps hostA none hostA (lit "/x")) = false := by
+  decide
+
+/-! ### the single-host pool -/
+
+/-- **A single-host pool refuses a cross-host URL** — for a bare pool that asserts the host (the
+default): (1) a URL of another host ends in `HostChangedError` with an *empty* wire log; (2) every
+request of any run passed `is_same_host`; (3) without a proxy every request went to the pool's own
+origin; (4) a redirect whose `Location` names another host is never followed by a request. -/
+theorem C06_single_host_refuses (W : World) (p : Pool) (fuel : Nat) (req : Req)
+    (hash : req.assertSameHost ≠ some false) :
+    (∀ pu, W.parse req.url = some pu → isSameHost p.id req.url pu = false → fuel ≠ 0 →
+      run W (.pool p) fuel req = ⟨[], .hostChanged⟩) ∧
+    (∀ s ∈ (run W (.pool p) fuel req).log,
+      ∃ pu, W.parse s.url = some pu ∧ isSameHost p.id s.url pu = true) ∧
+    (p.proxy = none → ∀ s ∈ (run W (.pool p) fuel req).log, s.dest = p.id.origin ∧ s.dial = p.id.origin) ∧
+    (∀ (i : Nat) (a : Sent) (loc : Str) (pu : PUrl), (run W (.pool p) fuel req).log[i]? = some a →
+      a.reply.redirectLocation = some loc → W.parse loc = some pu → isSameHost p.id loc pu = false →
+      (run W (.pool p) fuel req).log[i + 1]? = none) := by
+  have hash' : req.assertSameHost.getD true = true := by
+    cases h : req.assertSameHost with
+    | none => rfl
+    | some v => cases v with
+      | true => rfl
+      | false => exact absurd h hash
+  have h2 : ∀ s ∈ (run W (.pool p) fuel req).log,
+      ∃ pu, W.parse s.url = some pu ∧ isSameHost p.id s.url pu = true := by
+    rw [run_pool, hash']
+    apply pool_all W p _ true
+    intro method url body headers retries s r hs hpa
+    obtain ⟨_, _, _, hu, _, hsame⟩ := poolAttempt_ok hpa
+    rw [hu]; exact hsame rfl
+  refine ⟨?_, h2, ?_, ?_⟩
+  · intro pu hpu hs hf
+    obtain ⟨n, hn⟩ := Nat.exists_eq_succ_of_ne_zero hf
+    rw [run_pool, hash', hn]
+    exact pool_refuses W p n _ _ _ _ _ _ pu hpu hs
+  · intro hp
+    rw [run_pool]
+    apply pool_all W p _ _
+    intro method url body headers retries s r hs hpa
+    obtain ⟨_, _, _, _, _, hx⟩ := poolAttempt_ok' hpa
+    exact ⟨(hx hp).1, (hx hp).2.1⟩
+  · intro i a loc pu ha hloc hpu hsame
+    cases hb : (run W (.pool p) fuel req).log[i + 1]? with
+    | none => rfl
+    | some b =>
+      obtain ⟨_, _, _, hu⟩ := (run_hops W (.pool p) fuel req).get i a b ha hb
+      simp only at hu
+      rw [hloc] at hu
+      injection hu with hu
+      obtain ⟨pu', hpu', hs'⟩ := h2 b (List.mem_of_getElem? hb)
+      rw [hu, hpu] at hpu'
+      injection hpu' with hpu'
+      subst hpu'
+      rw [hu, hsame] at hs'
+      cases hs'
+
+/-- non-vacuity: a pool for `a.example` asked for `http://b.example/y` raises `HostChangedError` and
+sends nothing; asked for `/x` it sends one request, gets the redirect to `b.example`, and refuses it -/
+example :
+    run crossWorld (.pool (Pool.ofCtor sHttp hostA none .none none)) 5 (getReq urlB none .none)
+      = ⟨[], .hostChanged⟩ ∧
+    (run crossWorld (.pool (Pool.ofCtor sHttp hostA none .none none)) 5 (getReq (lit "/x") none .none)).log.length = 1 ∧
+    (run crossWorld (.pool (Pool.ofCtor sHttp hostA none .none none)) 5 (getReq (lit "/x") none .none)).outcome
+      = .hostChanged := by
+  decide
+
+/-! ### the chain invariant -/
+
+/- Full statement (the property text): for every `PoolManager` / `ProxyManager`, every placement of
+the policy and every chain — once a hop crosses origins, no header named in the *supplied* policy's
+`remove_headers_on_redirect` is in that or any later request.  It is FALSE of the code in three
+cases, each with a witness below:
+ 1. the policy sits on the manager constructor only (`C06_manager_remove_set_ignored`) — excluded by
+    `PlacementHonoured` (for the policy the code does consult the statement holds without it:
+    `C06_stripped_effective`);
+ 2. behind a forwarding proxy `is_same_host` is asked of the *proxy's* pool
+    (`C06_proxy_origin_keeps_credentials`) — excluded by `Crossing`'s clause "no proxy, or the current
+    URL is `https`" (the pool consulted is the origin's own);
+ 3. a scheme-relative target `//host/path` (only reachable from a scheme-less request URL) starts with
+    `/` and is judged same-host whatever its host (`C06_scheme_relative_keeps_credentials`) — excluded
+    by `Crossing`'s clause `startsWithSlash b.url = false`.
+`injected m` are the names the proxy machinery itself writes into a forwarded request (`Accept`,
+`Host`, the `proxy_headers`) — empty for a `PoolManager`. -/
+
+/-- **chain invariant, for the policy the code consults** -/
+theorem C06_stripped_effective (W : World) (m : Mgr) (fuel : Nat) (req : Req)
+    (hwf : CarriersWF (.manager m) req)
+    (hlow : (effective (.manager m) req).removeHeadersOnRedirect.map lower
+      = (effective (.manager m) req).removeHeadersOnRedirect)
+    (i j : Nat) (a b c : Sent) (hij : i < j)
+    (ha : (run W (.manager m) fuel req).log[i]? = some a)
+    (hb : (run W (.manager m) fuel req).log[i + 1]? = some b)
+    (hx : Crossing W m a b)
+    (hc : (run W (.manager m) fuel req).log[j]? = some c) :
+    ∀ l ∈ c.headers, lower l.1 ∈ (effective (.manager m) req).removeHeadersOnRedirect → l.1 ∈ injected m :=
+  run_stripped W m fuel req hwf hlow i j a b c hij ha hb hx hc
+
+/-- **Stripped after a cross-origin hop** — once hop `i → i+1` crosses origins (`Crossing`: the two
+URLs name origins that differ in scheme, normalised host or effective port), request `i+1` and every
+later request `j` of the chain carries no header whose lower-cased name is in the supplied policy's
+`remove_headers_on_redirect` (other than what the proxy machinery injects; nothing for a
+`PoolManager`) — whatever mapping type carried them, whatever the casing, for every chain shape. -/
+theorem C06_stripped_after_cross_origin_partial (W : World) (m : Mgr) (fuel : Nat) (req : Req)
+    (hpl : PlacementHonoured (.manager m) req)
+    (hwf : CarriersWF (.manager m) req)
+    (hlow : (supplied (.manager m) req).removeHeadersOnRedirect.map lower
+      = (supplied (.manager m) req).removeHeadersOnRedirect)
+    (i j : Nat) (a b c : Sent) (hij : i < j)
+    (ha : (run W (.manager m) fuel req).log[i]? = some a)
+    (hb : (run W (.manager m) fuel req).log[i + 1]? = some b)
+    (hx : Crossing W m a b)
+    (hc : (run W (.manager m) fuel req).log[j]? = some c) :
+    ∀ l ∈ c.headers, lower l.1 ∈ (supplied (.manager m) req).removeHeadersOnRedirect → l.1 ∈ injected m := by
+  rw [← effective_eq_supplied _ req hpl] at hlow ⊢
+  exact run_stripped W m fuel req hwf hlow i j a b c hij ha hb hx hc
+
+/-- every policy that went through `Retry.__init__` (all of them) satisfies the lower-case hypothesis;
+so do the policies `Retry.from_int` makes of `None` / `False` / an integer -/
+theorem C06_strip_set_lowercased (p : Retry) :
+    (Retry.init p).removeHeadersOnRedirect.map lower = (Retry.init p).removeHeadersOnRedirect :=
+  init_remove_lower p
+
+/-- for a `PoolManager` the wire agrees with the URLs: every request goes to the origin its URL names -/
+theorem C06_dest_is_url_origin (W : World) (m : Mgr) (fuel : Nat) (req : Req) (hp : m.proxy = none) :
+    ∀ s ∈ (run W (.manager m) fuel req).log, ∃ u, W.parse s.url = some u ∧ s.dest = urlOrigin u := by
+  rw [run_manager]
+  refine mgr_all W m (req.redirect.getD true) (fun _ _ _ => True)
+    (fun s => ∃ u, W.parse s.url = some u ∧ s.dest = urlOrigin u) (fun _ _ => trivial) ?_ fuel _ _ _ trivial
+  intro method url kw s _ hpass
+  obtain ⟨u, conn, pu, h1, h2, _, h4, _⟩ := hpass.noproxy hp
+  refine ⟨u, h1, ?_⟩
+  rw [h4]
+  obtain ⟨hc, _⟩ := pmConnectionFromHost_ok (connectionFromHost_own h2 (Or.inl hp))
+  rw [hc]
+  rfl
+
+/-- non-vacuity: `Authorization` given per request to a `PoolManager` whose first hop crosses from
+`a.example` to `b.example`: the hypotheses hold (dict carrier; the default strip set; the hop is a
+`Crossing`) and the second request indeed arrives without the header — while `X-Keep` is still there -/
+example :
+    let m : Mgr := ⟨.none, .dict [], none⟩
+    let req := getReq urlA (some (.dict [(sAuth, lit "s"), (lit "X-Keep", lit "k")])) .none
+    PlacementHonoured (.manager m) req ∧ CarriersWF (.manager m) req ∧
+    (supplied (.manager m) req).removeHeadersOnRedirect.map lower
+      = (supplied (.manager m) req).removeHeadersOnRedirect ∧
+    (∃ a b, (run crossWorld (.manager m) 5 req).log[0]? = some a ∧
+      (run crossWorld (.manager m) 5 req).log[1]? = some b ∧ Crossing crossWorld m a b) ∧
+    (run crossWorld (.manager m) 5 req).log.map (fun s => (s.dest.host, s.headers))
+      = [(hostA, [(sAuth, lit "s"), (lit "X-Keep", lit "k")]), (hostB, [(lit "X-Keep", lit "k")])] := by
+  refine ⟨Or.inr (Or.inr ⟨_, rfl, rfl⟩), ⟨trivial, fun h hh => ?_⟩, by decide, ?_, by decide⟩
+  · injection hh with hh; subst hh; trivial
+  · refine ⟨_, _, rfl, rfl, absUrl sHttp hostA none hostA (lit "/x"), absUrl sHttp hostB none hostB (lit "/y"),
+      by decide, by decide, by decide, Or.inl rfl, by decide⟩
+
+/-! ### negation witnesses for the three excluded cases -/
+
+/-- **Witness 1** (known finding `leak:manager-constructor-policy-ignored`):
+`PoolManager(retries=Retry(remove_headers_on_redirect=["X-Secret"]))` — the supplied strip set is
+`{x-secret}`, yet `X-Secret` is forwarded from `a.example` to `b.example` (the code consults
+`Retry.DEFAULT`'s set instead) -/
+theorem C06_manager_remove_set_ignored :
+    let m : Mgr := ⟨.retry (Retry.init { Retry.initDefaults with removeHeadersOnRedirect := [sXSecret] }),
+      .dict [], none⟩
+    let req := getReq urlA (some (.dict [(sXSecret, lit "s")])) .none
+    (supplied (.manager m) req).removeHeadersOnRedirect = [lower sXSecret] ∧
+    (run crossWorld (.manager m) 5 req).log.map (fun s => (s.dest.host, s.headers))
+      = [(hostA, [(sXSecret, lit "s")]), (hostB, [(sXSecret, lit "s")])] := by
+  decide
+
+def urlP : Str := lit "http://proxy.example:3128/y"
+def thePx : Proxy := ⟨sHttp, lit "proxy.example", 3128, [], false⟩
+/-- behind the forwarding proxy `http://a.example/x` answers `302 Location: http://proxy.example:3128/y` -/
+def proxyWorld : World :=
+  tableWorld [(⟨sHttp, hostA, 80⟩, lit "/x", ⟨302, some urlP⟩)]
+    [(urlA, absUrl sHttp hostA none hostA (lit "/x")),
+     (urlP, absUrl sHttp (lit "proxy.example") (some 3128) (lit "proxy.example:3128") (lit "/y"))]
+    [(urlA, urlP, urlP)]
+
+/-- **Witness 2** (known finding `leak:proxymanager-forwarding-same-host-judged-against-proxy`):
+`ProxyManager("http://proxy.example:3128")`, default policy, `Authorization` per request: the redirect
+from `http://a.example/x` into the proxy's own origin is judged same-host (the pool consulted is the
+proxy's) and `Authorization` arrives at `proxy.example:3128` -/
+theorem C06_proxy_origin_keeps_credentials :
+    let m : Mgr := ⟨.none, .dict [], some thePx⟩
+    let req := getReq urlA (some (.dict [(sAuth, lit "s")])) .none
+    (run proxyWorld (.manager m) 5 req).log.map
+        (fun s => (s.dest, s.headers.filter (fun l => lower l.1 == lower sAuth)))
+      = [(⟨sHttp, hostA, 80⟩, [(sAuth, lit "s")]), (⟨sHttp, lit "proxy.example", 3128⟩, [(sAuth, lit "s")])] := by
+  decide
+
+/-- `//a.example/x` answers `302 Location: //b.example/y` -/
+def schemelessWorld : World :=
+  tableWorld [(⟨sHttp, hostA, 80⟩, lit "/x", ⟨302, some (lit "//b.example/y")⟩)]
+    [(lit "//a.example/x", relUrl hostA (lit "/x")), (lit "//b.example/y", relUrl hostB (lit "/y")),
+     (lit "/x", pathUrl (lit "/x")), (lit "/y", pathUrl (lit "/y"))]
+    [(lit "//a.example/x", lit "//b.example/y", lit "//b.example/y")]
+
+/-- **Witness 3** (finding `leak:scheme-relative-target-judged-same-host`): a `PoolManager` asked for
+the scheme-less URL `//a.example/x` (deprecated, still served as `http`) with `Authorization`, answered
+by `302 Location: //b.example/y`: `urljoin` keeps the target scheme-relative, `is_same_host` returns
+`True` for anything that starts with `/`, and `Authorization` arrives at `b.example` -/
+theorem C06_scheme_relative_keeps_credentials :
+    let m : Mgr := ⟨.none, .dict [], none⟩
+    let req := getReq (lit "//a.example/x") (some (.dict [(sAuth, lit "s")])) .none
+    (run schemelessWorld (.manager m) 5 req).log.map (fun s => (s.dest, s.headers))
+      = [(⟨sHttp, hostA, 80⟩, [(sAuth, lit "s")]), (⟨sHttp, hostB, 80⟩, [(sAuth, lit "s")])] := by
   decide
 
 end U3.Props
